@@ -855,6 +855,11 @@ int lp_upolynomial_divides(const lp_upolynomial_t* p, const lp_upolynomial_t* q)
 
   assert(p->K == q->K);
 
+  // Everything divides 0
+  if (lp_upolynomial_is_zero(q)) {
+    return 1;
+  }
+
   // Special case
   if (lp_upolynomial_degree(p) > lp_upolynomial_degree(q)) {
     return 0;
@@ -882,6 +887,20 @@ int lp_upolynomial_divides(const lp_upolynomial_t* p, const lp_upolynomial_t* q)
         lp_upolynomial_t* rem = 0;
         lp_upolynomial_div_pseudo(&div, &rem, q, p);
         result = lp_upolynomial_is_zero(rem);
+        if (result) {
+          // lc(p)^k * q = div * p with k = deg(q) - deg(p) + 1, so p divides q
+          // iff lc(p)^k divides div (a zero pseudo-remainder alone only says
+          // that p divides lc(p)^k * q, e.g. 2x+4 and (x+2)^2)
+          lp_integer_t adjust;
+          integer_construct_from_int(lp_Z, &adjust, 0);
+          integer_pow(K, &adjust, lp_upolynomial_lead_coeff(p),
+              lp_upolynomial_degree(q) - lp_upolynomial_degree(p) + 1);
+          size_t i;
+          for (i = 0; result && i < div->size; ++ i) {
+            result = integer_divides(K, &adjust, &div->monomials[i].coefficient);
+          }
+          integer_destruct(&adjust);
+        }
         lp_upolynomial_delete(div);
         lp_upolynomial_delete(rem);
       }
